@@ -151,6 +151,36 @@ def run_sfcf(pe, acc, case, d):
                     acc.ok(('sfcf-replica', layout, tuple(reps)), True, 'sfcf-selection')
             except Exception as e:
                 acc.fail('sfcf:%s:replica:raised' % layout, dict(case, sel='replica'), repr(e))
+    # replica= in EVERY order, with names / files given in the same order; the caller's lists must come back unchanged
+    if layout in ('o', 'c') and len(reps) > 1:
+        sel = {r: CFGS[r][1::2] for r in reps}
+        for perm in itertools.permutations(reps):
+            rl = ['%sr%d' % (PREFIX, r) for r in perm]
+            for nk in ('auto', 'names', 'names+files'):
+                kw = {'replica': list(rl)}
+                rep_names = None
+                if nk != 'auto':
+                    rep_names = {r: 'ensX|%s' % 'zyx'[i] for i, r in enumerate(perm)}     # labels that sort against the order given
+                    kw['names'] = [rep_names[r] for r in perm]
+                if nk == 'names+files':
+                    kw['files'] = [[('cfg%d' % c) if layout == 'o' else '%sr%d_n%d' % (PREFIX, r, c) for c in sel[r]] for r in perm]
+                before = {k: ([list(x) if isinstance(x, list) else x for x in v]) for k, v in kw.items()}
+                sub = dict(case, sel='replica-order', order=list(perm), names=nk)
+                try:
+                    res = rd.read_sfcf(d, PREFIX, name, quarks=sf.QUARKS[0], version=VERSION[layout], silent=True, **kw)
+                    bad = None
+                    for t in range(T):
+                        exp_idl, exp_s = expected(list(perm), name, 0, 0, 0, 0, t, False, cfgsel=(sel if nk == 'names+files' else None), rep_names=rep_names)
+                        bad = bad or check_obs(res[t], list(exp_idl), exp_idl, exp_s, 1e-15)
+                    after = {k: ([list(x) if isinstance(x, list) else x for x in v]) for k, v in kw.items()}
+                    if not bad and after != before:
+                        bad = 'the reader modified the list(s) passed by the caller: %s -> %s' % (before, after)
+                except Exception as e:
+                    bad = 'raised %s: %s' % (type(e).__name__, e)
+                if bad:
+                    acc.fail('sfcf:%s:replica-order' % layout, sub, 'replica=%s (%s): %s' % (rl, nk, bad))
+                else:
+                    acc.ok(('sfcf-replica-order', layout, perm, nk), True, 'sfcf-selection')
     # read_sfcf_multi: several correlators / quarks / wave functions in one call, nested and keyed output
     try:
         nl = ['f_A', 'f_1', 'F_V0']
@@ -231,6 +261,31 @@ def run_hadrons(pe, acc, case, d):
                     acc.ok(('h5part', sn, part), True, 'hadrons')
             except Exception as e:
                 acc.fail('hadrons:part:raised', dict(case, set=sn, part=part), repr(e))
+    # call history: a second file set in which the gamma combinations sit in other groups, read by gammas / attrs right after
+    # the first set (and the first one again afterwards)
+    n2 = len(sf.GAMMAS) ** 2
+    rot = [(m + 4) % n2 for m in range(n2)]
+    cfgs = sets['even']
+    sf.write_hadrons(os.path.join(d, 'rotated'), 'meson_run', cfgs, T, order=rot)
+    for seq in (('even', 'rotated', 'even'), ('rotated', 'even', 'rotated')):
+        for m in range(n2):
+            a, b = sf.GAMMAS[m // len(sf.GAMMAS)], sf.GAMMAS[m % len(sf.GAMMAS)]
+            for step, sn in enumerate(seq):
+                sub = dict(case, sequence=list(seq), step=step, m=m)
+                try:
+                    C = pe.input.hadrons.read_meson_hd5(os.path.join(d, sn), 'meson_run', 'ensH', gammas=(a, b))
+                    C2 = pe.input.hadrons.read_hd5(os.path.join(d, sn, 'meson_run'), 'ensH', 'meson', attrs={'gamma_snk': a, 'gamma_src': b}, idl=cfgs)
+                    bad = None
+                    for t in range(T):
+                        for CC in (C, C2):
+                            bad = bad or check_obs(CC.content[t][0], ['ensH'], {'ensH': cfgs}, {'ensH': [sf.h5_value(c, m, t, 0) for c in cfgs]}, 1e-15)
+                except Exception as e:
+                    bad = 'raised %s: %s' % (type(e).__name__, e)
+                if bad:
+                    acc.fail('hadrons:sequence', sub, 'gammas (%s, %s) read from set %r as step %d of %s: %s' % (a, b, sn, step + 1, list(seq), bad))
+                    break
+            else:
+                acc.ok(('h5seq', seq, m), True, 'hadrons-sequence')
     # irregular configurations without idl must be refused; missing configuration in idl must be refused
     for nm, kw in (('irregular-without-idl', {'idl': None, 'set': 'irregular'}), ('missing-config', {'idl': [10, 13, 16, 19, 22, 26], 'set': 'even'})):
         try:
